@@ -396,6 +396,7 @@ func (h *H) checkGgsvd3(id string, idx int, sh gsvdCase) {
 	a, b := gsvdPair(rng, sh.structured, m, p, n, sh.rb, sh.r)
 	cfg := 0
 	var alphaC, betaC []float64 // values of the run with U, V and Q (certified by its identities)
+	kC, lC := -1, -1
 	for _, jobU := range []lapack.GSVDJob{lapack.GSVDU, lapack.GSVDNone} {
 		for _, jobV := range []lapack.GSVDJob{lapack.GSVDV, lapack.GSVDNone} {
 			for _, jobQ := range []lapack.GSVDJob{lapack.GSVDQ, lapack.GSVDNone} {
@@ -498,7 +499,17 @@ func (h *H) checkGgsvd3(id string, idx int, sh gsvdCase) {
 					nv := cs.h.c.NumViolations()
 					cs.gsvdIdentity("Dggsvd3", tag, a, b, ab.get(), bb.get(), u, v, q, k, l, alpha, beta)
 					if u != nil && v != nil && q != nil && alphaC == nil && cs.h.c.NumViolations() == nv {
-						alphaC, betaC = alpha, beta
+						alphaC, betaC, kC, lC = alpha, beta, k, l
+					} else if alphaC != nil && (k != kC || l != lC) {
+						// The runs differ in lwork and lda, hence in the blocking
+						// and rounding of the rank-revealing QR steps: on a pair
+						// whose rank deficiency is only numerical (floating point
+						// products) a diagonal entry of rounding size may fall on
+						// either side of tola / tolb, so k and l may legitimately
+						// differ between two calls; alpha and beta are then not
+						// comparable entry by entry. Each run is still judged by
+						// its own identities.
+						cs.h.c.Count("ggsvd3_cross_option_comparison_skipped_k_l_differ", 1)
 					} else if alphaC != nil {
 						// The generalized singular values do not depend on which
 						// factors are accumulated.
